@@ -47,6 +47,11 @@ def judgeSteps : List IStep → List (Option String) → Option String
   | [], _ => none
   | s :: ss, asg =>
     if s.panic then some "panic"
+    else if s.flip then
+      -- a health-check event must leave every counter as it is
+      match judgeSnap s.cn asg with
+      | some c => some (c ++ "-at-health-event")
+      | none => judgeSteps ss asg
     else if s.isInv then
       match judgeEvs s.k s.evs asg with
       | (some c, _) => some c
@@ -80,6 +85,8 @@ def tagsOf (sc : Scenario) (steps : List IStep) (nd : Bool) : List String :=
   (if sc.reqs.length ≥ 2 then ["multi"] else ["single"]) ++ (if nev == 0 then ["no-attempt"] else []) ++
   (if sc.cfg.mode == 1 then ["wlc"] else if sc.cfg.mode == 2 then ["sticky"] else ["wrr"]) ++
   (if sc.cfg.failNum > 0 then ["health"] else []) ++
+  (if steps.any (·.flip) then ["health-flip"] else []) ++
+  (if steps.any (fun s => s.flip && !s.cn.isEmpty) then ["flip-in-flight"] else []) ++
   (if sc.reqs.any fun r => r.finish.any (· == .finish) then ["reqfin-finish"] else []) ++
   (if sc.reqs.any fun r => r.finish.any (· == .panic) then ["reqfin-panic"] else []) ++
   (if sc.reqs.any fun r => r.finish.any (· == .other) then ["reqfin-other"] else []) ++
